@@ -203,14 +203,18 @@ def problems(
             states = [i for i in range(N) if assign[i] == b]
             mask = [[0] * s for _ in range(s)]
             for x in range(s):
-                for y in range(s):
-                    if x == y or (hermitian and x > y):
-                        continue
+                for y in range(x + 1, s):
                     same = energy[states[x]] == energy[states[y]] and eimag[states[x]] == eimag[states[y]]
-                    if not same and draw(st.booleans()):
-                        mask[x][y] = 1
-                        if hermitian:
-                            mask[y][x] = 1
+                    if same:
+                        continue
+                    if hermitian:
+                        if draw(st.booleans()):
+                            mask[x][y] = mask[y][x] = 1
+                    else:
+                        # non-Hermitian masks may eliminate (x, y) without (y, x): none / both / one of the two
+                        how = draw(st.sampled_from(["none", "both", "upper", "lower", "upper", "lower"]))
+                        mask[x][y] = int(how in ("both", "upper"))
+                        mask[y][x] = int(how in ("both", "lower"))
             selection["masks"][str(b)] = mask
     # "almost equal" class: levels that are degenerate for the library (|dE| < atol = 1e-12) without being bit-identical,
     # as eigenvalues coming out of a numerical diagonalisation are: the second and later members of every degenerate
